@@ -35,6 +35,8 @@ class World:
         I.call_hooks["allocate_on_buffer"] = self.h_allocate
         I.call_hooks["_to_slot_size"] = self.h_slot
         self.alloc_pos = Sym(Poly.atom("off"))
+        self.polys = {}  # key -> position polynomial of the words stored through the scalar hooks
+        self.copy_bytes = False  # opt-in: buffer-to-buffer copies carry the known words of the source range along
 
     # ---------------------------------------------------------------- hooks
     def h_slot(self, I, args, kwargs):
@@ -51,6 +53,11 @@ class World:
         vals = {nm: v for nm, v in zip(names, args)}
         vals.update({k: v for k, v in kwargs.items() if k in names})
         size, buf = vals.get("size"), vals.get("buffer")
+        given = vals.get("offset")
+        if given is not None and not isinstance(given, str) and topoly(given) is not None and isinstance(buf, Obj):
+            # an explicit position is used as given (nothing is allocated)
+            I.effects.append(Effect("placed", size=size, pos=given, buf=buf))
+            return (buf, given)
         n = sum(1 for e in I.effects if e.kind == "alloc")
         pos = self.alloc_pos if n == 0 else Sym(Poly.atom(f"off{n}"))
         I.effects.append(Effect("alloc", size=size, pos=pos, buf=(buf if isinstance(buf, Obj) else self.buffer)))
@@ -76,6 +83,7 @@ class World:
         n = self._size(I, scalar)
         I.effects.append(Effect("write", pos=P(offset), n=n, value=value, buf=buffer))
         I.mem[key(offset)] = value
+        self.polys[key(offset)] = P(offset)
         return None
 
     def h_from_buffer(self, I, args, kwargs):
@@ -95,6 +103,7 @@ class World:
             flat = arr.flat()
             for i, v in enumerate(flat):
                 I.mem[repr(P(offset) + Poly.const(n * i))] = v
+                self.polys[repr(P(offset) + Poly.const(n * i))] = P(offset) + Poly.const(n * i)
             I.effects.append(Effect("write_array", pos=P(offset), n=n, count=len(flat), values=flat, buf=buffer))
         else:
             I.effects.append(Effect("write_array", pos=P(offset), n=n, count=None, values=arr, buf=buffer))
@@ -122,6 +131,23 @@ class World:
         def rec(kind):
             def f(*a, **k):
                 I.effects.append(Effect(kind, args=a, kwargs=k, buf=b))
+                if kind == "update_from_xbuffer" and self.copy_bytes and len(a) == 4:
+                    dst, src, nb = topoly(a[0]), topoly(a[2]), topoly(a[3])
+                    if dst is not None and src is not None and nb is not None and nb.is_const():
+                        moved = []
+                        for kk in list(I.mem):
+                            pp = self.polys.get(kk)
+                            if pp is None:
+                                continue
+                            d = pp - src
+                            if d.is_const() and 0 <= d.const_value() < nb.const_value():
+                                moved.append((dst + d, I.mem[kk]))
+                        # words of the destination range that are not overwritten by a known word become unknown
+                        for kk in [kk for kk in list(I.mem) if kk in self.polys and (self.polys[kk] - dst).is_const() and 0 <= (self.polys[kk] - dst).const_value() < nb.const_value()]:
+                            del I.mem[kk]
+                        for np_, val in moved:
+                            I.mem[repr(np_)] = val
+                            self.polys[repr(np_)] = np_
                 if kind == "to_bytearray":
                     return Opaque(f"bytes@{a[0]!r}+{a[1]!r}")
                 if kind == "allocate":
